@@ -957,3 +957,65 @@ pub fn step_strategy() -> impl Strategy<Value = Step> {
     (prop_oneof![4 => Just(0u8), 1 => Just(1u8)], op_strategy()).prop_map(|(host, op)| Step { host, op })
 }
 
+
+/// Clamp a byte-decoded step into the domain of `step_strategy` (used by the
+/// coverage-guided fuzz targets of C07 / C10).
+pub fn sanitize_step(st: &mut Step) {
+    st.host %= 2;
+    let sl = |s: &mut u8| *s %= NSLOTS as u8;
+    let pa = |p: &mut u8| *p %= 13 + 8 * 3;
+    let wl = |l: &mut u8| *l %= 9;
+    match &mut st.op {
+        Op::Open { slot, path, .. } => {
+            sl(slot);
+            pa(path);
+        }
+        Op::Close { slot } => sl(slot),
+        Op::WriteAt { slot, off, len, .. } => {
+            sl(slot);
+            *off %= 12;
+            wl(len);
+        }
+        Op::ReadAt { slot, off, len, .. } => {
+            sl(slot);
+            *off %= 12;
+            *len %= 16;
+        }
+        Op::Write { slot, len, .. } => {
+            sl(slot);
+            wl(len);
+        }
+        Op::Read { slot, len, .. } => {
+            sl(slot);
+            *len %= 16;
+        }
+        Op::Seek { slot, off, .. } => {
+            sl(slot);
+            *off = (*off as i16).rem_euclid(16) as i8 - 6;
+        }
+        Op::SetLen { slot, len, .. } => {
+            sl(slot);
+            *len %= 14;
+        }
+        Op::HandleLen { slot, .. } | Op::SyncAll { slot, .. } | Op::SyncData { slot, .. } => sl(slot),
+        Op::Rename { from, to, .. } => {
+            pa(from);
+            pa(to);
+        }
+        Op::SyncDir { path, .. }
+        | Op::RemoveFile { path, .. }
+        | Op::CreateDir { path, .. }
+        | Op::CreateDirAll { path, .. }
+        | Op::RemoveDir { path, .. }
+        | Op::RemoveDirAll { path, .. }
+        | Op::ReadDir { path, .. }
+        | Op::Metadata { path, .. }
+        | Op::Exists { path, .. }
+        | Op::ReadFile { path, .. } => pa(path),
+        Op::WriteFile { path, len, .. } => {
+            pa(path);
+            wl(len);
+        }
+        Op::Advance { ms } => *ms %= 5000,
+    }
+}
